@@ -594,7 +594,7 @@ def decodeWhole {M : Type} (parseValue : Bytes → Option (M × Bytes)) (bs : By
   | some (m, rest) => if rest.all isJsonSpace then some m else none
 
 inductive LErr where
-  | manifest | verify | schema | notEmpty
+  | manifest | verify | schema | notEmpty | archive
 deriving DecidableEq, Repr
 
 structure LRes (R : Type) where
@@ -619,5 +619,28 @@ def loadBytes {D R σ : Type} [DecidableEq D] (E : LoadEnv D R σ) (parseValue :
   match decodeWhole parseValue manifestBytes with
   | none => ⟨[], some .manifest⟩
   | some m => load E m dir
+
+/-! ### `Load` with `ArchiveReader` (`prepareLoadInput` + `Load`)
+
+`prepareLoadInput` creates a private temporary directory, runs `UnpackEncryptedCollectionArchiveWithOptions(reader,
+tempDir, identity)` — the envelope reader (`readFramesVia`: frames, AEAD, end-of-stream probe), the tar stream of the
+decrypted chunks (`untar`, abstract tar parser), the extraction loop and the collection validation
+(`unpackEncDirect` into the empty temp directory; the frame stream is already known to be good, `tailOk = true`) —
+removes the directory on any failure, and otherwise hands it to the directory `Load` (`loadBytes` on its
+manifest.json and fragments, `view`). The real reader is lazy (extraction and decryption interleave); the
+outcome — which stage fails first matters only for the error text — and the database trace are those of this
+composition: no database call happens before the directory `Load` starts. -/
+def loadArchive {D R σ K H C : Type} [DecidableEq D] (E : LoadEnv D R σ) (A : Aead K (Aad H) C) (k : K) (hh : H)
+    (probe : Probe) (untar : List Bytes → List Item) (refuse : Str → Bool) (validate : FS → Bool) (tempPath : Str)
+    (view : FS → Bytes × Dir) (parseValue : Bytes → Option (Man D × Bytes))
+    (fs : List (Frame C)) (tail : Tail) : LRes R :=
+  match readFramesVia A k hh probe 0 fs tail with
+  | .error _ => ⟨[], some .archive⟩
+  | .ok chunks =>
+    if (unpackEncDirect refuse validate true tempPath (untar chunks) { out := some [] }).err.isSome then ⟨[], some .archive⟩
+    else
+      loadBytes E parseValue
+        (view (files ((unpackEncDirect refuse validate true tempPath (untar chunks) { out := some [] }).final { out := some [] }).out)).1
+        (view (files ((unpackEncDirect refuse validate true tempPath (untar chunks) { out := some [] }).final { out := some [] }).out)).2
 
 end Dawgs.C20
